@@ -1,6 +1,7 @@
 package main
 
 import (
+	"crypto/x509"
 	"encoding/json"
 	"fmt"
 
@@ -310,7 +311,14 @@ func init() {
 					resp := M{"clientDataJSON": b64u(b.CDJ), "attestationObject": b64u(b.AttObj())}
 					switch dev {
 					case "same":
+						// what getAuthenticatorData() / getPublicKey() / getPublicKeyAlgorithm() of an honest client return: the attested
+						// authenticator data, the credential key as SubjectPublicKeyInfo, its algorithm
 						resp["authenticatorData"] = b64u(b.AuthData)
+						if spki, err := x509.MarshalPKIXPublicKey(b.Cred.Public()); err == nil {
+							resp["publicKey"] = b64u(spki)
+							resp["publicKeyAlgorithm"] = b.Cred.Alg
+							resp["transports"] = []string{"usb", "nfc"}
+						}
 					case "other":
 						resp["authenticatorData"] = b64u(other.AuthData)
 						resp["publicKey"] = b64u(other.Cred.COSE(true))
@@ -319,7 +327,7 @@ func init() {
 					case "empty":
 						resp["authenticatorData"] = ""
 					}
-					if r.Bool() {
+					if r.Bool() && dev != "same" {
 						resp["publicKeyAlgorithm"] = pick(r, []int{-7, -257, -8, 0, 1})
 						resp["transports"] = pick(r, [][]string{{"usb"}, {"internal", "hybrid"}, {}})
 					}
@@ -338,4 +346,5 @@ func init() {
 	}
 	register("C03", viaJSON("reg.viaJSON"))
 	register("C02", viaJSON("reg.viaJSON"))
+	register("C05", viaJSON("reg.viaJSON"))
 }
